@@ -359,6 +359,48 @@ def D38():
     c1 = A.Transport(name='t', nodes=[n1, n2], min_cap=0, max_cap=1, costs_const=1., periodicity='d').setup_optim_problem({}, tg).c
     return 'transport with costs 1 over 48 h: total cost %.0f, as periodic (d) asset %.0f' % (c0.sum(), c1.sum())
 
+@witness
+def D39():
+    tg = A.Timegrid(dt.datetime(2021, 1, 1, 0), dt.datetime(2021, 1, 1, 4), freq='h')
+    a = A.Plant(name='PP', nodes=N1, price='p', min_cap=1., max_cap=10., min_runtime=8, time_already_running=1, start_costs=5.)
+    op = a.setup_optim_problem({'p': np.ones(tg.T)}, timegrid=tg); m = op.mapping
+    return 'running plant, min_runtime 8 on 4 steps: lower bounds of the start variables %s, value %.1f' % (op.l[m.index[m.var_name == 'bool_start']], op.optimize().value)
+
+@witness
+def D40():
+    tg = A.Timegrid(dt.datetime(2021, 1, 1, 0), dt.datetime(2021, 1, 1, 6), freq='h')
+    a = A.Plant(name='PP', nodes=N1, price='p', min_cap=1., max_cap=10., ramp=1., time_already_running=1, last_dispatch=2.)
+    return 'running plant, last dispatch 2, ramp 1: dispatch %s' % np.round(a.setup_optim_problem({'p': -np.ones(tg.T)}, timegrid=tg).optimize().x[:6], 2)
+
+@witness
+def D41():
+    tg = A.Timegrid(dt.datetime(2021, 1, 1, 0), dt.datetime(2021, 1, 1, 8), freq='h')
+    a = A.Plant(name='PP', nodes=N1, price='p', min_cap=6., max_cap=10., ramp=1.1, time_already_running=2, last_dispatch=2.,
+                start_ramp_lower_bounds=[1, 2, 4, 6, 10], shutdown_ramp_lower_bounds=[1.1])
+    r = a.setup_optim_problem({'p': -np.ones(tg.T)}, timegrid=tg).optimize()
+    return 'start ramp in progress, ramp 1.1: %s' % (r if isinstance(r, str) else np.round(r.x[:8], 2))
+
+@witness
+def D42():
+    tg = A.Timegrid(dt.datetime(2021, 1, 1, 0), dt.datetime(2021, 1, 4, 12), freq='h')
+    a = A.SimpleContract(name='a', nodes=N1, price='p', min_cap=-1, max_cap=1, freq='d'); a.set_timegrid(tg)
+    r = tg.restricted
+    return 'daily asset on 84 hourly steps: %d coarse steps covering %d fine steps' % (r.T, sum(len(x) for x in r.I_minor_in_major))
+
+@witness
+def D43():
+    import eaopack as eao
+    node, inner = A.Node('n'), A.Node('inner')
+    tg = A.Timegrid(dt.date(2021, 1, 1), dt.date(2021, 1, 11), freq='d')
+    prices = {'p': np.linspace(1, 10, tg.T), 'q': np.linspace(1, 10, tg.T) + 5}
+    buy = A.SimpleContract(name='buy', price='p', nodes=inner, min_cap=0, max_cap=1)
+    tr = A.Transport(name='tr', nodes=[inner, node], min_cap=0, max_cap=5)
+    sa = eao.portfolio.StructuredAsset(name='S', portfolio=eao.portfolio.Portfolio([buy, tr]), nodes=node, start=dt.date(2021, 1, 4), end=dt.date(2021, 1, 7))
+    sell = A.SimpleContract(name='sell', price='q', nodes=node, min_cap=-10, max_cap=0)
+    portf = eao.portfolio.Portfolio([sa, sell]); op = portf.setup_optim_problem(prices, tg); res = op.optimize()
+    d = eao.io.extract_output(portf, op, res, prices)['dispatch']['S']
+    return 'structured asset with window [Jan 4, Jan 7) around assets without dates: active on %d of 10 days, value %.0f' % ((d.abs() > 1e-6).sum(), res.value)
+
 if __name__ == '__main__':
     which = sys.argv[1:] or list(W)
     for k in which:
